@@ -1,7 +1,7 @@
 (* C20 — property theorems only.  Bodies live in Proofs.v / SortProofs.v. *)
 From Coq Require Import Sorting.Permutation Sorting.Sorted.
 From EsVerif.Common Require Import Base.
-From EsVerif.C20 Require Import Model Model2 Spec Proofs SortProofs Proofs2 Exec History Checkers Meter Opaque Gen Tie.
+From EsVerif.C20 Require Import Model Model2 Spec Proofs SortProofs Proofs2 Exec History Checkers Meter Opaque Shape Gen Tie.
 
 (* The in-place sorts leave a non-decreasing permutation of their input, key-value pairs kept
    together; the recursion always terminates within the model's fuel. *)
@@ -275,6 +275,63 @@ Theorem C20_keyvalue_keys_sorted_alone : forall (B : Type) (db : B) (kv : list (
   option_map (map fst) (quicksort_gen fst (0, db) kv) = quicksort (map fst kv).
 Proof. exact @keyvalue_keys_sorted_alone. Qed.
 
+(* ======================================================================================================
+   Round 6: more of the model regenerated from the source, and exact rejections. *)
+(* keyword defaults of pbar / pmap, the literals of the first meter and the counters, the time test and the update of
+   last_print_n, and the wrapper expressions of prange and pmap, as read from the source, are the model's *)
+Theorem C20_source_shapes :
+  gen_pbar_defaults = model_pbar_defaults /\ gen_pmap_defaults = model_pmap_defaults
+  /\ gen_full_first_meter = first_meter /\ gen_full_init = full_init
+  /\ (forall a b c, gen_full_time_test a b c = time_test a b c)
+  /\ (forall n, gen_full_last_update n = last_update n)
+  /\ gen_prange_expr = prange_expr /\ gen_pmap_expr = pmap_expr.
+Proof. exact tie_shapes. Qed.
+
+(* pmap as the source composes it -- list(pbar(ex.map(fn, iterable, chunksize=chunksize), **kw)) -- evaluated with the
+   executor model and the pbar model: list(map(fn, items)) for every complete schedule and every bar configuration in
+   which the bar is defined over a generator *)
+Theorem C20_pmap_of_source : forall c f items chunksize schedule,
+  1 <= chunksize ->
+  (forall k, 0 <= k < Z.of_nat (length (chunks_of (length items) (Z.to_nat chunksize) items)) -> In k schedule) ->
+  pbar_defined (as_generator c) (map f items) ->
+  eval_pmap c f items chunksize schedule gen_pmap_expr = Some (map f items, None).
+Proof. exact src_pmap_kw. Qed.
+
+(* option interaction: simple=True forwarded through pmap without total= -- sbar's RuntimeError reaches pmap's caller *)
+Theorem C20_pmap_simple_without_total : forall h f items chunksize schedule,
+  1 <= chunksize ->
+  (forall k, 0 <= k < Z.of_nat (length (chunks_of (length items) (Z.to_nat chunksize) items)) -> In k schedule) ->
+  pmap_kw {| simple := true; has_len := h; total := None |} f items chunksize schedule = Some ([], Some ERuntime).
+Proof. exact pmap_kw_simple_without_total. Qed.
+
+Theorem C20_prange_of_source : forall c args, eval_prange c args gen_prange_expr = prange c args.
+Proof. exact src_prange. Qed.
+
+(* every keyword at its default (as read from the source): the property holds for every iterable, sized or not;
+   pmap's default chunksize meets the hypothesis of C20_pmap_all_schedules *)
+Theorem C20_pbar_defaults_of_source : forall has_len items, pbar_ok items (pbar (default_cfg gen_pbar_defaults has_len) items).
+Proof. exact src_pbar_defaults. Qed.
+
+Theorem C20_pmap_default_chunksize : forall f items schedule,
+  (forall k, 0 <= k < Z.of_nat (length (chunks_of (length items) (Z.to_nat (fst model_pmap_defaults)) items)) -> In k schedule) ->
+  pmap f items (fst model_pmap_defaults) schedule = Some (map f items).
+Proof. exact pmap_default_chunksize. Qed.
+
+(* mininterval = 0 and a clock that does not run backwards: the time test of the meter update always passes *)
+Theorem C20_time_test_zero_interval : forall cur last, last <= cur -> time_test cur last 0 = true.
+Proof. exact time_test_zero_interval. Qed.
+
+(* exactly which configurations end with an exception, and with which class *)
+Theorem C20_pbar_rejections : forall c items e,
+  snd (pbar c items) = Some e <->
+  simple c = true /\ ((eff_total c (Z.of_nat (length items)) = None /\ e = ERuntime)
+                      \/ (eff_total c (Z.of_nat (length items)) = Some 0 /\ items <> [] /\ e = EOther)).
+Proof. exact pbar_rejections. Qed.
+
+Theorem C20_splitarray_rejections : forall (A : Type) nper (var : list A),
+  (nper = 0 -> splitarray nper var = Err EOther) /\ (nper < 0 -> splitarray nper var = Ok []).
+Proof. exact @splitarray_rejections. Qed.
+
 Definition task_exn_demo (x : Z) : result Z := if x =? 4 then Err EValue else if x =? 5 then Err EKey else Ok (x * x).
 
 (* Non-vacuity: concrete non-trivial instances meet the hypotheses and the conclusions compute. *)
@@ -314,3 +371,10 @@ Example C20_nonvacuous4 :
   /\ quicksort_keyvalue (map (relabel (fun v => 2 * v)) [(2, 100); (1, 101); (2, 102); (0, 103); (1, 104)])
      = option_map (map (relabel (fun v => 2 * v))) (quicksort_keyvalue [(2, 100); (1, 101); (2, 102); (0, 103); (1, 104)]).
 Proof. split; reflexivity. Qed.
+
+Example C20_nonvacuous5 :
+  pmap_kw {| simple := true; has_len := false; total := Some 9 |} (fun x => x + 1) [1; 2; 3; 4; 5] 2 [2; 0; 1] = Some ([2; 3; 4; 5; 6], None)
+  /\ pmap_kw {| simple := true; has_len := false; total := None |} (fun x => x + 1) [1; 2; 3] 2 [0; 1] = Some ([], Some ERuntime)
+  /\ snd (pbar {| simple := true; has_len := true; total := Some 0 |} [7; 8]) = Some EOther
+  /\ splitarray (-2) [1; 2; 3] = Ok [].
+Proof. repeat split; reflexivity. Qed.
